@@ -257,7 +257,12 @@ def _limit_pos(
   sensorid = sensor_limitpos_adr[limitposid]
   if efc_id_in[worldid, efcid] == sensor_objid[sensorid]:
     efc_type = efc_type_in[worldid, efcid]
-    if efc_type == ConstraintType.LIMIT_JOINT or efc_type == ConstraintType.LIMIT_TENDON:
+    # efc_id is a joint id for joint limits and a tendon id for tendon limits: only match
+    # rows of the sensor's own kind (joint k and tendon k share the number k)
+    sensortype = sensor_type[sensorid]
+    if (efc_type == ConstraintType.LIMIT_JOINT and sensortype == SensorType.JOINTLIMITPOS) or (
+      efc_type == ConstraintType.LIMIT_TENDON and sensortype == SensorType.TENDONLIMITPOS
+    ):
       val = efc_pos_in[worldid, efcid] - efc_margin_in[worldid, efcid]
       _write_scalar(sensor_type, sensor_datatype, sensor_adr, sensor_cutoff, sensorid, val, sensordata_out[worldid])
 
@@ -1056,7 +1061,12 @@ def _limit_vel(
   sensorid = sensor_limitvel_adr[limitvelid]
   if efc_id_in[worldid, efcid] == sensor_objid[sensorid]:
     efc_type = efc_type_in[worldid, efcid]
-    if efc_type == ConstraintType.LIMIT_JOINT or efc_type == ConstraintType.LIMIT_TENDON:
+    # efc_id is a joint id for joint limits and a tendon id for tendon limits: only match
+    # rows of the sensor's own kind (joint k and tendon k share the number k)
+    sensortype = sensor_type[sensorid]
+    if (efc_type == ConstraintType.LIMIT_JOINT and sensortype == SensorType.JOINTLIMITVEL) or (
+      efc_type == ConstraintType.LIMIT_TENDON and sensortype == SensorType.TENDONLIMITVEL
+    ):
       _write_scalar(
         sensor_type, sensor_datatype, sensor_adr, sensor_cutoff, sensorid, efc_vel_in[worldid, efcid], sensordata_out[worldid]
       )
@@ -1668,7 +1678,12 @@ def _limit_frc(
   sensorid = sensor_limitfrc_adr[limitfrcid]
   if efc_id_in[worldid, efcid] == sensor_objid[sensorid]:
     efc_type = efc_type_in[worldid, efcid]
-    if efc_type == ConstraintType.LIMIT_JOINT or efc_type == ConstraintType.LIMIT_TENDON:
+    # efc_id is a joint id for joint limits and a tendon id for tendon limits: only match
+    # rows of the sensor's own kind (joint k and tendon k share the number k)
+    sensortype = sensor_type[sensorid]
+    if (efc_type == ConstraintType.LIMIT_JOINT and sensortype == SensorType.JOINTLIMITFRC) or (
+      efc_type == ConstraintType.LIMIT_TENDON and sensortype == SensorType.TENDONLIMITFRC
+    ):
       _write_scalar(
         sensor_type, sensor_datatype, sensor_adr, sensor_cutoff, sensorid, efc_force_in[worldid, efcid], sensordata_out[worldid]
       )
